@@ -301,3 +301,41 @@ func noise(r *gen.RNG) {
 		}
 	})
 }
+
+// willAsPacket takes the will message out of a decoded CONNECT and uses it as
+// the packet it is - a *Publish - the way a broker does when it publishes the
+// will: written, it must be a PUBLISH frame that reads back to the same
+// accessor values.
+func willAsPacket(c *run.Ctx, id string, decoded mq.Packet, det func() map[string]interface{}) {
+	cn, ok := decoded.(*mq.Connect)
+	if !ok || cn.Will() == nil {
+		return
+	}
+	w := cn.Will()
+	c.Current(func() string { return "Will().WriteTo" })
+	sw, pan := snapshotGuarded(w)
+	b, _, werr, pan2 := libEncode(w)
+	c.Eval(1)
+	c.Count("will-as-packet", "written", 1)
+	if pan != nil || pan2 != nil || werr != nil || len(b) < 2 {
+		c.Violation(id+"/will-as-packet/write", fmt.Sprintf("the will of a decoded CONNECT cannot be written as a packet: err=%v panic=%v %v", werr, pan, pan2), det())
+		return
+	}
+	if b[0]>>4 != ref.TPublish || (b[0]>>1)&3 != w.QoS() || (b[0]&1 != 0) != w.Retain() {
+		c.Violation(id+"/will-as-packet/first-byte", fmt.Sprintf("the will of a decoded CONNECT (QoS %d, retain %v) is written with first byte %#02x, not as a PUBLISH with those flags", w.QoS(), w.Retain(), b[0]), det())
+		return
+	}
+	res := libRead(b)
+	if !res.Accepted() {
+		c.Violation(id+"/will-as-packet/read", fmt.Sprintf("the frame written for the will of a decoded CONNECT is not read back: %v %v", res.Err, res.Panic), det())
+		return
+	}
+	if _, ok := res.Pkt.(*mq.Publish); !ok {
+		c.Violation(id+"/will-as-packet/type", fmt.Sprintf("the frame written for the will of a decoded CONNECT reads back as %T", res.Pkt), det())
+		return
+	}
+	if sr, pan := snapshotGuarded(res.Pkt); pan == nil && !ref.Equal(sw, sr) {
+		d, _, _ := ref.Diff(sw, sr)
+		c.Violation(id+"/will-as-packet/value", fmt.Sprintf("the will of a decoded CONNECT, written and read back as a PUBLISH, differs: %v", d), det())
+	}
+}
